@@ -12,7 +12,9 @@ BANK_KNOWN = {"ShadowByTag": "D14", "Ambiguous": "D14", "EmbedTagged": "D16", "E
 BANK_REC = ["Rec", "RecA", "PtrSelf", "PtrA", "PtrIntoSelf", "PtrTail1", "PtrC1", "HoldsRho",
             "Quad", "Trie", "ArrMap", "ArrA", "HoldsQuad", "QuadList"]
 BANK_BAD = ["Handler", "IntKeyed", "MyChan", "TwoHandlers", "Handler"]
-GEN = {"names": [], "redeclared": set(), "embedding": set(), "embeds": {}}
+GEN = {"names": [], "redeclared": set(), "embedding": set(), "embeds": {}, "locals": []}
+# the hand-written pair of the bank: two function-local `type Item struct` (harness/gotype.go)
+BANK_LOCALS = [["LocalItemA", "LocalItemB"]]
 
 
 def embeds_closure(name):
@@ -30,12 +32,117 @@ def harness_files(seed, tier):
     """Plugin hook HARNESS_FILES: the declared types of this run, compiled into the harness through a build overlay."""
     import random
     from . import gen_decls
-    src, infos = gen_decls.gen_decls(random.Random(seed * 7919 + 13), 30 if tier == "quick" else 80)
+    src, infos, locs = gen_decls.gen_decls(random.Random(seed * 7919 + 13), 30 if tier == "quick" else 80)
+    GEN["locals"] = locs
     GEN["names"] = [x["name"] for x in infos]
     GEN["redeclared"] = {x["name"] for x in infos if x["redeclared"]}
     GEN["embedding"] = {x["name"] for x in infos if x["embeds"]}
     GEN["embeds"] = {x["name"]: list(x["embeds"]) for x in infos}
     return {"zz_gen_types.go": src}
+# ---------------------------------------------------------------------------------------------
+# TypeSchemas entries that ACCEPT every encoding of the type they override (C04's `EntriesAccept`, C13's shared options)
+
+# JSON type of the encodings of bank types that are never EMBEDDED in another bank / generated type (an override of an embedded type
+# must be a plain {"type":"object","properties":…}); "array" types encode a nil slice as null, so their lists always hold "null"
+TS_TARGETS = {"MyInt": "integer", "MyInt8": "integer", "MyUint16": "integer", "MyUint": "integer", "MyInt64": "integer",
+              "MyFloat": "number", "MyString": "string", "MyBool": "boolean", "time.Time": "string", "slog.Level": "string",
+              "Empty": "object", "DescTag": "object", "Levels": "object", "Named": "object", "Markers": "object",
+              "HoldsPtrs": "object", "Twice": "object", "MyInts": "array"}
+JSON_TYPES = ["array", "boolean", "integer", "null", "number", "object", "string"]
+
+
+def accepting_entry(rng, kind):
+    """A schema with a multi-valued (or, rarely, single) `type` that accepts every JSON value of `kind`, in any order and of any
+    length 1..7, now and then with harmless other keywords. Decoded by encoding/json in the harness: lists of 3, 5, 6, 7 names
+    arrive with spare capacity, as any append-built list does."""
+    from .wire import Obj
+    ok = {"integer": ["integer", "number"], "number": ["number"]}.get(kind, [kind])
+    k = rng.choice(ok)
+    n = rng.choice([1, 2, 3, 3, 3, 4, 5, 5, 6, 7])
+    rest = [x for x in JSON_TYPES if x != k and (kind != "array" or x != "null")]
+    if rng.random() < 0.5:
+        rest = [x for x in rest if x != "null"]          # half of the lists leave null to the pointer positions
+    need = ["null"] if kind == "array" else []
+    n = max(n, 1 + len(need))
+    types = [k] + need + rng.sample(rest, min(n - 1 - len(need), len(rest)))
+    rng.shuffle(types)
+    kvs = [("type", types[0] if len(types) == 1 and rng.random() < 0.5 else types)]
+    r = rng.random()
+    if r < 0.15:
+        kvs.append(("description", "override"))
+    elif r < 0.25:
+        kvs.insert(0, ("title", "T"))
+    elif r < 0.3 and kind == "object":
+        kvs.append(("properties", Obj([("zz-undeclared", Obj([("type", types)]))])))
+    return Obj(kvs)
+
+
+def typeschemas_case(rng, used):
+    """(type under inference, warm types, typeSchemas): one never-embedded declared type N with an accepting entry, used several
+    times in one type (by value, behind one or two pointers, as element of slices / maps / arrays, in every order), optionally next
+    to an unrelated field, and 0-2 earlier calls (`warm`) that reach N through other wrappers with the same options object."""
+    cands = sorted(TS_TARGETS) + [n for n in GEN["names"] if not any(n in e for e in GEN["embeds"].values())][:12]
+    nm = rng.choice(cands)
+    kind = TS_TARGETS.get(nm, "object")
+    used.add(nm)
+    N = {"k": "named", "name": nm}
+    wraps = [N, N, {"k": "ptr", "e": N}, {"k": "ptr", "e": N}, {"k": "slice", "e": N}, {"k": "slice", "e": {"k": "ptr", "e": N}},
+             {"k": "map", "key": "string", "e": N}, {"k": "map", "key": "string", "e": {"k": "ptr", "e": N}},
+             {"k": "array", "n": 2, "e": N}, {"k": "ptr", "e": {"k": "ptr", "e": N}},
+             {"k": "struct", "fields": [{"name": "In", "tag": 'json:"in"', "t": N}]}]
+
+    def one():
+        r = rng.random()
+        if r < 0.2:
+            return rng.choice(wraps)
+        fields = []
+        for i in range(rng.randint(2, 4)):
+            tg = rng.choice(['json:"%s"', 'json:"%s"', 'json:"%s,omitempty"', "", 'json:"%s,omitzero"'])
+            fields.append({"name": "F%d" % i, "tag": (tg % ("f%d" % i)) if "%s" in tg else tg, "t": rng.choice(wraps)})
+        if rng.random() < 0.3:
+            fields.insert(rng.randint(0, len(fields)), {"name": "Z", "tag": 'json:"z"', "t": gen_type(rng, 2, used, allow_known=0.0)})
+        t = {"k": "struct", "fields": fields}
+        if r < 0.35:
+            t = {"k": rng.choice(["slice", "ptr"]), "e": t}
+        return t
+    t = one()
+    warm = [one() for _ in range(rng.choice([0, 0, 1, 1, 2]))]
+    if warm and rng.random() < 0.3:
+        warm.append(t)                                   # the call under test is itself a repetition
+    ts = [{"name": nm, "schema": accepting_entry(rng, kind)}]
+    if rng.random() < 0.25:
+        other = rng.choice([c for c in sorted(TS_TARGETS) if c != nm])
+        ts.insert(rng.randint(0, 1), {"name": other, "schema": accepting_entry(rng, TS_TARGETS[other])})
+    return t, warm, ts
+
+
+# tag names: encoding/json accepts letters and decimal digits of EVERY script (unicode.IsLetter / unicode.IsDigit) and the ASCII
+# punctuation !#$%&()*+-./:;<=>?@[]^_{|}~ and blank
+TAG_NAMES = ["a", "b", "c", "d", "e", "x_y", "k.1", "f n", "a-b", "q?", "p:q", "\u00e9", "na\u00efve", "\u00df9", "\u03a9m", "\u04342",
+             "\u0633\u0637\u0631\u0661", "\u9805\u76ee\uff12", "x\uff11", "\u0915\u0969", "n\u0663", "\u0e01\u0e53", "a/b~c", "{k}|$", "7"]
+
+
+def same_name_case(rng, used):
+    """A type that holds two (or three) DIFFERENT declared struct types of one name and package path (function-local declarations
+    of the harness: the hand-written pair and the generated ones), each by value / pointer / in a container, in any order."""
+    vs = list(rng.choice(BANK_LOCALS + GEN["locals"]))
+    rng.shuffle(vs)
+    if rng.random() < 0.3:
+        vs.append(rng.choice(vs))                        # one of them twice
+    fields = []
+    for i, nm in enumerate(vs):
+        N = {"k": "named", "name": nm}
+        w = rng.choice([N, N, N, {"k": "ptr", "e": N}, {"k": "slice", "e": N}, {"k": "map", "key": "string", "e": N}, {"k": "array", "n": 1, "e": N},
+                        {"k": "struct", "fields": [{"name": "V", "tag": 'json:"v"', "t": N}]}])
+        fields.append({"name": "F%d" % i, "tag": rng.choice(['json:"f%d"' % i, "", 'json:"f%d,omitempty"' % i]), "t": w})
+    if rng.random() < 0.3:
+        fields.insert(rng.randint(0, len(fields)), {"name": "Z", "tag": 'json:"z"', "t": gen_type(rng, 2, used, allow_known=0.0)})
+    t = {"k": "struct", "fields": fields}
+    if rng.random() < 0.3:
+        t = {"k": rng.choice(["slice", "ptr", "map"]), "key": "string", "e": t}
+    return t
+
+
 TAGS = ['json:"%s"', 'json:"%s,omitempty"', 'json:"%s,omitzero"', 'json:"%s,omitempty,omitzero"', "", 'json:",omitempty"', 'json:"-"',
         'json:"-,"', 'json:"%s" jsonschema:"described"']
 
@@ -54,6 +161,8 @@ def gen_type(rng, depth, used, allow_known=0.04, allow_rec=0.0, allow_bad=0.0):
                 used.add(n)
                 return {"k": "named", "name": n}
             n = rng.choice(GEN["names"]) if GEN["names"] and rng.random() < 0.6 else rng.choice(BANK_PLAIN)
+            if rng.random() < 0.06:
+                n = rng.choice(rng.choice(BANK_LOCALS + GEN["locals"]))      # one of several same-named declared types
             used.add(n)
             return {"k": "named", "name": n}
         if rng.random() < allow_bad:
@@ -85,7 +194,7 @@ def gen_type(rng, depth, used, allow_known=0.04, allow_rec=0.0, allow_bad=0.0):
             else:
                 jnames.append("-")
         if "%s" in tag:
-            jn = rng.choice(["a", "b", "c", "d", "e", "x_y", "k.1", "f n", "a-b", "q?", "p:q", "é"])
+            jn = rng.choice(TAG_NAMES)
             while jn in jnames:
                 jn += "1"
             jnames.append(jn)
